@@ -40,8 +40,13 @@
                      [X(L)==X(R); hash] (X = conversion to the other representation)
                      [ev(L)==ev(R); hash; ev(L)==ev(X(L)); ev(R)==ev(X(R))]  (Evaluations over the domain)
                   status [2] = some operator / degree() panicked
+     14 mvpoly_rel     multivariate SparsePolynomial<F, SparseTerm>: layout and output in C19/MvRun.v, expression
+                       codes in C19/MvModel.v (operators: the coq/C17 models)
+     15 pt_decoded_rel curve points obtained by deserialization: layout and output in C19/DecRun.v (expected decode:
+                       the coq/C09 codec models)
 *)
 From V Require Import C08.Model Base.Word Base.Field C15.BigIntModel C03.CurveExec C19.OrdModel C19.Exprs C19.PolyExprs.
+From V Require C19.MvRun C19.DecRun.
 
 Definition ok (r : list (list Z)) : list (list Z) := [0] :: r.
 Definition unsupported : list (list Z) := [[9]].
@@ -249,6 +254,7 @@ Section RunField.
     | 6 | 7 => run_sw op a
     | 8 | 9 => run_te op a
     | 12 => run_poly op a
+    | 14 => MvRun.run_mv F C a
     | _ => unsupported
     end.
 End RunField.
@@ -267,6 +273,7 @@ Definition run_big (op : Z) (a : list (list Z)) : list (list Z) :=
 Definition run_C19 (op : Z) (a : list (list Z)) : list (list Z) :=
   match op with
   | 4 | 5 => run_big op a
+  | 15 => DecRun.run_dec_C19 a
   | _ =>
     let kind := argz 0 1 a in
     let N := Z.to_nat (argz 0 2 a) in
